@@ -205,7 +205,7 @@ func RunWire(c *Ctx, sp *WireSpec) (int, error) {
 		}
 	}
 	t0 := time.Now()
-	ws, err := genrun.Build(filepath.Join(c.Work, "mod"), planList, true)
+	ws, err := genrun.Build(filepath.Join(c.Work, "mod"), planList, sp.Op != "generate")
 	if err != nil {
 		return 2, infra("%v", err)
 	}
@@ -268,6 +268,22 @@ func RunWire(c *Ctx, sp *WireSpec) (int, error) {
 	var harnessErrSample string
 	var eventLines [][]byte
 	t1 := time.Now()
+	if sp.Op == "generate" {
+		// C12: the observation is the generator's verdict and the compiler's
+		cmds = nil
+		for i, cs := range run.cases {
+			b := ws.Builts[cs.Pid]
+			diag := b.Diag
+			if len(diag) > 400 {
+				diag = diag[:400]
+			}
+			ln, _ := json.Marshal(map[string]interface{}{"ev": "generate", "cid": i + 1, "m": 0, "res": "nil", "accepted": b.Accepted,
+				"compiles": b.Compiles, "diag": diag, "reject": b.ReadErr + b.GenErr + b.Panic})
+			eventLines = append(eventLines, ln)
+			nEvents++
+		}
+		executed = len(run.cases)
+	}
 	st, err := sup.Run(&sup.Config{Worker: ws.Worker, PkgFile: pkgFile, Procs: 12,
 		Resumable: map[string]bool{"cuts": true, "corrupt": true, "rfault": true, "wfault": true}},
 		cmds, func(cid int, line []byte) {
